@@ -92,7 +92,8 @@ Definition wrong_file (g : ghost) (d : disk) (k : string) : Z * Z :=
 (* the verdict on one step; [] = fine, otherwise
    [fail kind; collision; retyped; had CA; file index; direction]
    fail kind: 1 a file nobody derives, 2 the files of a key are not as expected, 3 a reference
-   does not report the error (or reports one for a valid secret) *)
+   does not report the error (or reports one for a valid secret), 6 a reference names a file that
+   is not derived from that Secret *)
 Definition step_verdict (univ : list string) (done : list op) (g : ghost) (o : op) (ob : sobs) : list Z :=
   let '(ls, p, e) := ob in
   if negb (owned univ ls) then [1; 0; 0; 0; 0; 0]
@@ -102,10 +103,13 @@ Definition step_verdict (univ : list string) (done : list op) (g : ghost) (o : o
         let '(fi, dir) := wrong_file g ls k in
         [2; collision_code univ k; b2z (retyped k None done); b2z (had_ca k done); fi; dir]
     | [] =>
+        let ref_verdict (k : string) : list Z :=
+          if negb (Bool.eqb e (get_err_expected g k)) then [3; 0; 0; 0; 0; 0]
+          else if negb (path_ok k p) then [6; 0; 0; 0; 0; 0]
+          else [] in
         match o with
-        | Get k => if Bool.eqb e (get_err_expected g k) then [] else [3; 0; 0; 0; 0; 0]
-        | ForcePath ns name =>
-            if Bool.eqb e (get_err_expected g (key_of ns name)) then [] else [3; 0; 0; 0; 0; 0]
+        | Get k => ref_verdict k
+        | ForcePath ns name => ref_verdict (key_of ns name)
         | _ => []
         end
     end.
